@@ -73,6 +73,27 @@ def judge_document(doc, models, crud, prefix, pk_names):
     if got_ops != want_ops:
         fails.append(("OpsExact", "operations {} != requested {}".format(
             {p: sorted(o) for p, o in sorted(got_ops.items())}, {p: sorted(o) for p, o in sorted(want_ops.items())})))
+    # RoutesDescribeModel, on the document: everything said under a model's paths (summaries, descriptions of parameters and responses,
+    # $refs) names that model and no other model of the document
+    def strings_of(x, out):
+        if isinstance(x, dict):
+            for k_, v_ in x.items():
+                strings_of(v_, out)
+        elif isinstance(x, list):
+            for v_ in x:
+                strings_of(v_, out)
+        elif isinstance(x, str):
+            out.append(x)
+    for p, v in paths.items():
+        owner = next((m for m in models if p == "{}/{}".format(prefix, m.lower()) or p.startswith("{}/{}/".format(prefix, m.lower()))), None)
+        if owner is None:
+            continue
+        texts = []
+        strings_of(v, texts)
+        for other in models:
+            if other != owner and any(re.search(r"(?<![A-Za-z0-9_]){}(?![A-Za-z0-9_])".format(re.escape(other)), t) for t in texts):
+                fails.append(("RoutesDescribeModel", "path {} was generated for {} but describes {}: {}".format(
+                    p, owner, other, next(t for t in texts if re.search(r"(?<![A-Za-z0-9_]){}(?![A-Za-z0-9_])".format(re.escape(other)), t))[:80])))
     for p, v in paths.items():
         for tp in re.findall(r"\{([^}]+)\}", p):
             declared = {prm.get("name") for prm in v.get("parameters", []) if isinstance(prm, dict)}
